@@ -523,22 +523,29 @@ def shutdown_rules(R, ctx):
         if r.undecided:
             raise CheckError(f"R07.6 cleanup thread: UNDECIDED {r.undecided}")
         names = [e[0].split('::')[-1] for e in r.effects]
-        # the message of each blocking receive
+        # the message of each receive (blocking or not)
+        isrecv = lambda e_: re.search(r'::(recv|try_recv|recv_timeout)$', e_[0]) is not None
         for i, e in enumerate(r.effects):
-            if not e[0].endswith('::recv'):
+            if not isrecv(e):
                 continue
+            blocking = e[0].endswith('::recv')
             k = i + 1
             okv = r.get(f"variant({e[0]}#{k})")
             msg = r.get(f"variant({e[0]}#{k}.0)")
+            nxt_any = next((j for j in range(i + 1, len(r.effects)) if isrecv(r.effects[j])), len(r.effects))
             nxt = next((j for j in range(i + 1, len(r.effects)) if r.effects[j][0].endswith('::recv')), len(r.effects))
             seg = names[i + 1:nxt]
             if okv == 'Ok' and msg == 'Act':
                 n_act += 1
+                # requests may be coalesced, but a cleanup run must follow before the thread blocks again / ends
                 if IMPL.split('::')[-1] not in seg:
                     bad = f"an Act request is received but no cleanup run follows before the thread goes on / ends (effects after it: {seg})"
-            elif okv == 'Err' or (okv == 'Ok' and msg not in (None, 'Act')):
+            elif (okv == 'Err' and blocking) or (okv == 'Ok' and msg not in (None, 'Act')):
                 n_exit += 1
-                if nxt != len(r.effects) or IMPL.split('::')[-1] in seg:
+                if nxt_any != len(r.effects):
+                    bad = ("a stop message (Die) is taken from the channel but the thread goes on receiving: the sender's join() waits forever, with the state lock held"
+                           if okv == 'Ok' else "the thread goes on receiving after the channel was disconnected")
+                elif blocking and IMPL.split('::')[-1] in seg:
                     bad = "the thread does not leave its loop on Die / disconnect"
     if not bad and (n_act < 1 or n_exit < 1):
         raise CheckError(f"R07.6 cleanup thread: form not recognised (Act rows {n_act}, exit rows {n_exit})")
